@@ -33,9 +33,9 @@ func run(c *lib.Ctx) error {
 
 	// ---- M + G
 	type bound struct{ steps, newAl, ninit int }
-	bounds := []bound{{1, 1, 5}}
+	bounds := []bound{{1, 1, 6}}
 	if c.Thorough() {
-		bounds = []bound{{2, 1, 2}, {1, 1, 5}}
+		bounds = []bound{{2, 1, 2}, {1, 1, 6}}
 	}
 	c.Set("bounds", map[string]any{"exhaustive": bounds, "random_histories": c.Pick(24, 300), "map_growth_histories": c.Pick(12, 120), "map_grow_shrink_histories": c.Pick(9, 90), "history_length": 40, "big_lists": []int{33, 1057}})
 	seen := map[string]bool{}
